@@ -38,6 +38,11 @@ Print Assumptions C11_layout_pinned.
 Theorem C11_irregular_pinned : strs_eqb gen_opaque golden_opaque = true.
 Proof. exact opaque_pinned. Qed.
 Print Assumptions C11_irregular_pinned.
+(* the codec methods of the hand-modelled irregular types are textually the ones the models were written against *)
+Theorem C11_irregular_source_pinned : opaque_src_changed = [] /\ pairs_eqb gen_opaque_src golden_opaque_src = true.
+Proof. exact opaque_src_pinned. Qed.
+Print Assumptions C11_irregular_source_pinned.
+
 Theorem C11_fields_covered : uncovered = [].
 Proof. exact fields_covered. Qed.
 Print Assumptions C11_fields_covered.
